@@ -39,7 +39,7 @@ PROPS = {
         "rule": "states visited by seeded histories (corpus, curated, 960/DFRC starts, constructed builder states; random walks, full subtrees below curated roots); an observation is non-trivial when the position has at least one legal move",
         "assumptions": BOARD_ASSUME,
         "jobs": [
-            board_job("gen-magic", ["gen"], ["C01"], {"histories": 500, "subtrees": 48, "deep": 2}, {"histories": 30000, "subtrees": 200, "deep": 30}, sample_kinds=["reset", "gen", "play"]),
+            board_job("gen-magic", ["gen"], ["C01"], {"histories": 500, "subtrees": 80, "deep": 2}, {"histories": 30000, "subtrees": 200, "deep": 30}, sample_kinds=["reset", "gen", "play"]),
             board_job("gen-pext", ["gen"], ["C01"], {"histories": 250, "subtrees": 10}, {"histories": 15000, "subtrees": 200, "deep": 10}, variant="pext", seed_offset=7919, sample_kinds=["gen"]),
         ],
     },
@@ -47,14 +47,14 @@ PROPS = {
         "rule": "transitions (position, legal move, successor) recorded along seeded histories; every legal move of every curated root and of the first 2 roots' successors is played",
         "assumptions": BOARD_ASSUME,
         "jobs": [
-            board_job("play", [], ["C02"], {"histories": 900, "subtrees": 48, "deep": 3}, {"histories": 60000, "subtrees": 200, "deep": 40}, sample_kinds=["reset", "play"]),
+            board_job("play", [], ["C02"], {"histories": 900, "subtrees": 80, "deep": 3}, {"histories": 60000, "subtrees": 200, "deep": 40}, sample_kinds=["reset", "play"]),
         ],
     },
     "C03": {
         "rule": "every logged state after reset / play / null move; rebuild through the builder must be == ; transposition pairs",
         "assumptions": BOARD_ASSUME,
         "jobs": [
-            board_job("derived", ["rebuild"], ["C03", "C09"], {"histories": 900, "subtrees": 48, "deep": 2, "transpositions": 150}, {"histories": 60000, "subtrees": 200, "deep": 40, "transpositions": 5000}, sample_kinds=["play", "null", "rebuild", "pair"]),
+            board_job("derived", ["rebuild"], ["C03", "C09"], {"histories": 900, "subtrees": 80, "deep": 2, "transpositions": 150}, {"histories": 60000, "subtrees": 200, "deep": 40, "transpositions": 5000}, sample_kinds=["play", "null", "rebuild", "pair"]),
         ],
         "report": ["C03", "C09"],
     },
@@ -62,14 +62,14 @@ PROPS = {
         "rule": "all 64*64*7 move values swept through is_legal on every visited state; non-trivial = state with a legal move",
         "assumptions": BOARD_ASSUME,
         "jobs": [
-            board_job("islegal", ["islegal"], ["C04"], {"histories": 500, "subtrees": 48, "deep": 1}, {"histories": 40000, "subtrees": 200, "deep": 30}, sample_kinds=["reset", "islegal"]),
+            board_job("islegal", ["islegal"], ["C04"], {"histories": 500, "subtrees": 80, "deep": 1}, {"histories": 40000, "subtrees": 200, "deep": 30}, sample_kinds=["reset", "islegal"]),
         ],
     },
     "C07": {
         "rule": "both texts of every visited state, re-read through from_fen (both modes) and FromStr, re-formatted; route pairs for == <=> equal text",
         "assumptions": BOARD_ASSUME,
         "jobs": [
-            board_job("text", ["text"], ["C07"], {"histories": 600, "subtrees": 48, "transpositions": 100}, {"histories": 50000, "subtrees": 200, "deep": 20, "transpositions": 3000}, sample_kinds=["text", "pair"]),
+            board_job("text", ["text"], ["C07"], {"histories": 600, "subtrees": 80, "transpositions": 100}, {"histories": 50000, "subtrees": 200, "deep": 20, "transpositions": 3000}, sample_kinds=["text", "pair"]),
         ],
         "report": ["C07", "C03"],
     },
@@ -77,7 +77,8 @@ PROPS = {
         "rule": "hash / hash_without_ep of every logged state against boards freshly built from the same position by text and builder routes with other clocks and without ep; transposition pairs",
         "assumptions": BOARD_ASSUME,
         "jobs": [
-            board_job("hash", ["fresh"], ["C10"], {"histories": 700, "subtrees": 48, "deep": 1, "transpositions": 200}, {"histories": 50000, "subtrees": 200, "deep": 30, "transpositions": 6000}, sample_kinds=["fresh", "pair", "null"]),
+            parse_job("texts", "parse", ["C10"], {"bases": 60, "random": 100, "edits": 20}, {"bases": 4000, "random": 10000, "edits": 40}, sample_kinds=["parse"]),
+            board_job("hash", ["fresh"], ["C10"], {"histories": 700, "subtrees": 80, "deep": 1, "transpositions": 200}, {"histories": 50000, "subtrees": 200, "deep": 30, "transpositions": 6000}, sample_kinds=["fresh", "pair", "null"]),
         ],
         "report": ["C10", "C03"],
     },
@@ -85,7 +86,7 @@ PROPS = {
         "rule": "status() on every visited state; histories include clock setters (99, 100), mates and stalemates from curated roots",
         "assumptions": BOARD_ASSUME,
         "jobs": [
-            board_job("status", ["status"], ["C12"], {"histories": 900, "subtrees": 48, "deep": 2}, {"histories": 60000, "subtrees": 200, "deep": 40}, sample_kinds=["status", "sethmc"]),
+            board_job("status", ["status"], ["C12"], {"histories": 900, "subtrees": 80, "deep": 2}, {"histories": 60000, "subtrees": 200, "deep": 40}, sample_kinds=["status", "sethmc"]),
         ],
     },
     "C13": {
@@ -99,7 +100,7 @@ PROPS = {
         "rule": "null_move attempted after every move of the curated subtrees and randomly inside histories",
         "assumptions": BOARD_ASSUME,
         "jobs": [
-            board_job("null", ["rebuild"], ["C14", "C03", "C10"], {"histories": 900, "subtrees": 48, "deep": 2}, {"histories": 60000, "subtrees": 200, "deep": 40}, sample_kinds=["null", "rebuild"]),
+            board_job("null", ["rebuild"], ["C14", "C03", "C10"], {"histories": 900, "subtrees": 80, "deep": 2}, {"histories": 60000, "subtrees": 200, "deep": 40}, sample_kinds=["null", "rebuild"]),
         ],
         "report": ["C14"],
     },
@@ -107,14 +108,14 @@ PROPS = {
         "rule": "all 64*64*7 move values through try_play on a clone of every visited state; play() on all accepted plus sampled rejected values; refused moves inside histories",
         "assumptions": BOARD_ASSUME,
         "jobs": [
-            board_job("tryplay", ["tryplay"], ["C15"], {"histories": 400, "subtrees": 48}, {"histories": 30000, "subtrees": 200, "deep": 20}, sample_kinds=["tryplay", "play"]),
+            board_job("tryplay", ["tryplay"], ["C15"], {"histories": 400, "subtrees": 80}, {"histories": 30000, "subtrees": 200, "deep": 20}, sample_kinds=["tryplay", "play"]),
         ],
     },
     "C16": {
         "rule": "generate_moves_for on ~20 masks per state (empty, full, own, kinds, singletons, random and complements, pinned set, ep origins) and every abort index for two masks",
         "assumptions": BOARD_ASSUME,
         "jobs": [
-            board_job("masks", ["gen", "genfor", "abort"], ["C16"], {"histories": 250, "subtrees": 48}, {"histories": 15000, "subtrees": 200, "deep": 10}, sample_kinds=["genfor", "abort"]),
+            board_job("masks", ["gen", "genfor", "abort"], ["C16"], {"histories": 250, "subtrees": 80}, {"histories": 15000, "subtrees": 200, "deep": 10}, sample_kinds=["genfor", "abort"]),
         ],
     },
     "C20": {
@@ -185,5 +186,19 @@ PROPS = {
             parse_job("candidates", "cand", ["C09"], {"bases": 300, "mutations": 10, "random": 500, "targeted-pct": 40}, {"bases": 15000, "mutations": 14, "random": 40000, "targeted-pct": 60}, sample_kinds=["build"]),
         ],
         "report": ["C09"],
+    },
+    "C11": {
+        "rule": "every observable key of the Zobrist table (633 non-king keys: 608 piece, 16 right, 8 ep, side; 2 x 63 king keys relative to e1/e8) extracted from pairs of accepted boards differing in one feature, several witnesses each; then all C(633,2) = 200 028 pair XORs and 2 x 2016 king-move XORs compared exhaustively; linear model validated on corpus and DFRC boards; every played move and null move must change the hash",
+        "assumptions": ["TLC 1.8.0 and the CommunityModules Bitwise override compute XOR on 16-bit limbs correctly",
+                        "the hash is the XOR of per-feature keys (linear model) -- validated by the same run on the sampled boards, and each key is checked to be independent of the witness pair",
+                        "keys of pawns on the first/eighth rank and absolute king keys are not observable through accepted boards and constrain no board; combinations are checked without regard to whether they are realisable differences, which is stronger than the property"],
+        "jobs": [
+            {"type": "trace", "name": "extract", "driver": "hashkeys", "spec": "Trace_Hash", "variant": "release", "checks": ["C11"], "shards": 1,
+             "args": {"common": {}, "quick": {"linear": 300, "linear-960": 100, "witnesses": 2}, "thorough": {"linear": 20000, "linear-960": 5000, "witnesses": 6}}, "sample_kinds": ["key", "lin"]},
+            {"type": "model", "name": "decide", "spec": "MC_HashKeys", "trace_from": "extract", "exhaustive": True,
+             "params": {"quick": {"workers": 1, "xmx": "4g", "bounds": "all 633 extracted non-king keys, all 200 028 unordered pairs, all 2 x 2016 king-square pairs"},
+                        "thorough": {"workers": 1, "xmx": "4g", "bounds": "all 633 extracted non-king keys, all 200 028 unordered pairs, all 2 x 2016 king-square pairs"}}},
+            board_job("moves-change-hash", [], ["C11"], {"histories": 1200, "subtrees": 80, "deep": 3}, {"histories": 80000, "subtrees": 200, "deep": 60}, sample_kinds=["play", "null"]),
+        ],
     },
 }
